@@ -42,6 +42,7 @@ type Violation struct {
 	Kind    string // assert | panic | frozen | race | deadlock | hang
 	Msg     string
 	Pos     string
+	Detail  string // monitor detail (e.g. the allocation sites seen on this path); part of the de-duplication signature
 	Witness *Witness
 }
 
@@ -363,6 +364,8 @@ type JobResult struct {
 	MaxDepth   int
 	KnownCount int
 	FreshCount int
+	Dropped    int // violations beyond the per-signature cap (counted, witnesses not kept)
+	sigCount   map[string]int
 }
 
 type pathOutcome struct {
@@ -544,6 +547,17 @@ func (i *Interp) Explore(job *Job, setup, run *ssa.Function, lim Limits, base []
 					continue // keep a few witnesses of known findings only
 				}
 			} else {
+				// keep a few witnesses per distinct (kind, message, detail): a flood of one kind must not end the
+				// exploration before another kind is reached
+				sig := ps.violations[k].Kind + "|" + ps.violations[k].Msg + "|" + ps.violations[k].Detail
+				if res.sigCount == nil {
+					res.sigCount = map[string]int{}
+				}
+				res.sigCount[sig]++
+				if res.sigCount[sig] > 8 {
+					res.Dropped++
+					continue
+				}
 				res.FreshCount++
 			}
 			res.Violations = append(res.Violations, ps.violations[k])
